@@ -33,6 +33,7 @@ func verifVFSDel(name string)
 func verifTask(name string, notification bool)
 func verifSched(explore bool)
 func verifMapOrder(explore bool)
+func verifLockBusy(busy bool)
 `
 
 func (e *Engine) byteIn(name, set string) *symv {
@@ -225,6 +226,13 @@ var intrinsics = map[string]extFn{
 	},
 	"verifMapOrder": func(e *Engine, _ *frame, _ *ssa.Function, a []value) value {
 		e.permOff = !e.truth(a[0])
+		return nil
+	},
+	// verifLockBusy(true): from now on another message's handler is assumed to hold every mutex at the moment
+	// the code asks for it - Lock waits for it (and then proceeds), TryLock fails. Models a request that arrives
+	// while another handler runs; natively the harness creates that situation itself.
+	"verifLockBusy": func(e *Engine, _ *frame, _ *ssa.Function, a []value) value {
+		e.lockBusy = e.truth(a[0])
 		return nil
 	},
 	"verifSched": func(e *Engine, _ *frame, _ *ssa.Function, a []value) value {
